@@ -39,7 +39,7 @@ func intRef(t *Term) string {
 		return intConst(t)
 	}
 	if t.op == OpVar {
-		return "|" + t.name + "|"
+		return t.ref()
 	}
 	return fmt.Sprintf("t%d", t.id)
 }
